@@ -360,6 +360,9 @@ def run(ctx):
     ctx.rule("R01.u", "update model: Parameters._update interpreted abstractly (entry flag x key orders x rejected / unknown key x a key given the value it already holds): every key given "
                       "reaches the validating setter, so update(...) accepts exactly what an assignment accepts", floor=1)
     ctx.rule("R01.m", "setter model: Parameter.__set__ interpreted abstractly on every combination (576) of route x constant/readonly x validation outcome x identity x reference mode x watchers x batching agrees with the specification of this property (see checks/setter_model.py)", floor=1)
+    ctx.rule("R01.n", "namespace model (shared with R13.h): ParameterizedMetaclass.__setattr__ / _clear_params_cache, Parameters.add_parameter and the _cls_parameters property interpreted abstractly on hierarchies of up to three levels and a diamond: after every class-level assignment, add_parameter or removal, `.param[name]` of every class of the hierarchy is the very Parameter object that governs attribute access there -- a stale lookup hands `C.param.x.bounds = ...` to another Parameter than the one that validates assignments to C and its instances: the constraints in force are ignored", floor=1)
+    from checks import namespace_model
+    namespace_model.report(ctx, "R01.n")
     ctx.not_decided += ["semantics of re.match / isinstance / `in` (trusted library operations: only that they are consulted is checked)",
                         "Selector membership under concurrent mutation of objects", "accept-iff-spec for value *types* (bool vs int, date vs datetime)"]
     rule_a(ctx)
